@@ -45,56 +45,155 @@ type c16Path struct {
 	unknown       []string
 }
 
-// roleOfAppended classifies the appended expression.
-func roleOfAppended(e ast.Expr) string {
-	s := types.ExprString(e)
+// c16Vars: the variables of a batched mapper, identified by what is done with
+// them, never by name: batch is the slice handed (variadic) to the mapping
+// manager, read is the slice its result is assigned to, res is what the
+// function returns, idx every variable assigned from len(res).
+type c16Vars struct {
+	batch, read, res types.Object
+	idx              map[types.Object]bool
+}
+
+func c16VarsOf(info *types.Info, fd *ast.FuncDecl) c16Vars {
+	v := c16Vars{idx: map[types.Object]bool{}}
+	ast.Inspect(fd.Body, func(n ast.Node) bool {
+		switch x := n.(type) {
+		case *ast.AssignStmt:
+			for i, rhs := range x.Rhs {
+				call, ok := unparen(rhs).(*ast.CallExpr)
+				if !ok {
+					continue
+				}
+				if sel, ok := call.Fun.(*ast.SelectorExpr); ok && call.Ellipsis.IsValid() && len(call.Args) > 0 &&
+					(strings.HasPrefix(sel.Sel.Name, "MapStringsToUUIDs") || sel.Sel.Name == "MapUUIDsToStrings") {
+					v.batch = objOf(info, call.Args[len(call.Args)-1])
+					if i < len(x.Lhs) {
+						v.read = objOf(info, x.Lhs[0])
+					}
+				}
+			}
+		case *ast.ReturnStmt:
+			if len(x.Results) >= 1 {
+				if o := objOf(info, x.Results[0]); o != nil {
+					v.res = o
+				}
+			}
+		}
+		return true
+	})
+	if v.res == nil && fd.Type.Results != nil && len(fd.Type.Results.List) > 0 && len(fd.Type.Results.List[0].Names) > 0 {
+		v.res = info.Defs[fd.Type.Results.List[0].Names[0]]
+	}
+	ast.Inspect(fd.Body, func(n ast.Node) bool {
+		as, ok := n.(*ast.AssignStmt)
+		if !ok || len(as.Lhs) != 1 || len(as.Rhs) != 1 {
+			return true
+		}
+		if c, ok := unparen(as.Rhs[0]).(*ast.CallExpr); ok && len(c.Args) == 1 {
+			if id, ok := unparen(c.Fun).(*ast.Ident); ok && id.Name == "len" && v.res != nil && objOf(info, c.Args[0]) == v.res {
+				if o := objOf(info, as.Lhs[0]); o != nil {
+					v.idx[o] = true
+				}
+			}
+		}
+		return true
+	})
+	return v
+}
+
+// baseTypeName: the name of the (pointer to) named type of e.
+func baseTypeName(info *types.Info, e ast.Expr) string {
+	t := info.TypeOf(e)
+	if t == nil {
+		return ""
+	}
+	if n := core.NamedOf(t); n != nil {
+		return n.Obj().Name()
+	}
+	return ""
+}
+
+// roleOfAppended classifies the appended expression by the field selected and
+// the type it is selected from.
+func roleOfAppended(info *types.Info, e ast.Expr) string {
+	e = unparen(e)
+	if st, ok := e.(*ast.StarExpr); ok {
+		e = unparen(st.X)
+	}
+	sel, ok := e.(*ast.SelectorExpr)
+	if !ok {
+		return "?"
+	}
+	owner := baseTypeName(info, sel.X)
 	switch {
-	case strings.HasSuffix(s, ".Object") && !strings.Contains(s, "SubjectSet") && !strings.Contains(s, "sub."):
-		return "object"
-	case strings.Contains(s, "SubjectID") || strings.Contains(s, "SubjectSet") || strings.HasPrefix(s, "sub.") || strings.HasPrefix(s, "*t.SubjectID"):
+	case strings.Contains(owner, "SubjectSet") || strings.Contains(owner, "SubjectID"):
 		return "subject"
+	case strings.Contains(sel.Sel.Name, "Subject"):
+		return "subject"
+	case sel.Sel.Name == "Object":
+		return "object"
 	}
 	return "?"
 }
 
 // walkBody interprets the loop body for one valuation. kind: "id", "set", "both", "none".
-func c16Walk(pkg *packages.Package, body []ast.Stmt, kind string, batch string, p *c16Path) {
+func c16Walk(pkg *packages.Package, body []ast.Stmt, kind string, vars c16Vars, p *c16Path) {
 	info := pkg.TypesInfo
+	errT := types.Universe.Lookup("error").Type()
 	evalNil := func(e ast.Expr) (isNil bool, known bool) {
-		s := types.ExprString(e)
-		switch {
-		case strings.HasSuffix(s, ".SubjectID"):
+		sel, ok := unparen(e).(*ast.SelectorExpr)
+		if !ok {
+			return false, false
+		}
+		switch sel.Sel.Name {
+		case "SubjectID":
 			return !(kind == "id" || kind == "both"), true
-		case strings.HasSuffix(s, ".SubjectSet"):
+		case "SubjectSet":
 			return !(kind == "set" || kind == "both"), true
 		}
 		return false, false
 	}
 	var cond func(e ast.Expr) (val bool, known bool)
 	cond = func(e ast.Expr) (bool, bool) {
-		switch x := ast.Unparen(e).(type) {
-		case *ast.BinaryExpr:
+		e = unparen(e)
+		if u, ok := e.(*ast.UnaryExpr); ok && u.Op == token.NOT {
+			if _, isCmp := unparen(u.X).(*ast.BinaryExpr); !isCmp {
+				v, k := cond(u.X)
+				return !v, k
+			}
+		}
+		if op, x, y, ok := cmpParts(info, e); ok && (op == token.EQL || op == token.NEQ) && isNilExpr(info, y) {
+			if t := info.TypeOf(x); t != nil && types.Identical(t, errT) {
+				return op == token.EQL, true // no error on the explored path
+			}
+			if isNil, ok := evalNil(x); ok {
+				return isNil == (op == token.EQL), true
+			}
+			return false, false
+		}
+		// negated conjunction / disjunction
+		neg := false
+		for {
+			u, ok := e.(*ast.UnaryExpr)
+			if !ok || u.Op != token.NOT {
+				break
+			}
+			neg = !neg
+			e = unparen(u.X)
+		}
+		if x, ok := e.(*ast.BinaryExpr); ok {
 			switch x.Op {
-			case token.NEQ, token.EQL:
-				if id, ok := x.Y.(*ast.Ident); ok && id.Name == "nil" {
-					if s := types.ExprString(x.X); s == "err" || strings.HasSuffix(s, "err") {
-						return x.Op == token.EQL, true // no error on the explored path
-					}
-					if isNil, ok := evalNil(x.X); ok {
-						return isNil == (x.Op == token.EQL), true
-					}
-				}
 			case token.LAND:
 				a, ka := cond(x.X)
 				b, kb := cond(x.Y)
 				if ka && kb {
-					return a && b, true
+					return (a && b) != neg, true
 				}
 			case token.LOR:
 				a, ka := cond(x.X)
 				b, kb := cond(x.Y)
 				if ka && kb {
-					return a || b, true
+					return (a || b) != neg, true
 				}
 			}
 		}
@@ -109,19 +208,19 @@ func c16Walk(pkg *packages.Package, body []ast.Stmt, kind string, batch string, 
 			switch s := st.(type) {
 			case *ast.AssignStmt:
 				if len(s.Lhs) == 1 && len(s.Rhs) == 1 {
-					lhs := types.ExprString(s.Lhs[0])
-					if call, ok := s.Rhs[0].(*ast.CallExpr); ok {
-						if id, ok := call.Fun.(*ast.Ident); ok && id.Name == "append" && len(call.Args) >= 2 {
-							target := types.ExprString(call.Args[0])
-							if target == batch && lhs == batch {
+					lhs := objOf(info, s.Lhs[0])
+					if call, ok := unparen(s.Rhs[0]).(*ast.CallExpr); ok {
+						if id, ok := unparen(call.Fun).(*ast.Ident); ok && id.Name == "append" && len(call.Args) >= 2 {
+							target := objOf(info, call.Args[0])
+							if target != nil && target == vars.batch && lhs == vars.batch {
 								for _, a := range call.Args[1:] {
-									p.appends = append(p.appends, c16Append{batch, a, roleOfAppended(a)})
+									p.appends = append(p.appends, c16Append{"batch", a, roleOfAppended(info, a)})
 								}
-							} else if lhs == "res" && target == "res" {
+							} else if target != nil && lhs == vars.res && target == vars.res {
 								p.resApp++
 							}
 						}
-						if id, ok := call.Fun.(*ast.Ident); ok && id.Name == "len" && lhs == "i" && types.ExprString(call.Args[0]) == "res" {
+						if id, ok := unparen(call.Fun).(*ast.Ident); ok && id.Name == "len" && len(call.Args) == 1 && vars.idx[lhs] && objOf(info, call.Args[0]) == vars.res {
 							p.iDefBeforeRes = p.resApp == 0
 						}
 					}
@@ -129,7 +228,7 @@ func c16Walk(pkg *packages.Package, body []ast.Stmt, kind string, batch string, 
 			case *ast.ExprStmt:
 				if call, ok := s.X.(*ast.CallExpr); ok {
 					if sel, ok := call.Fun.(*ast.SelectorExpr); ok && sel.Sel.Name == "do" && len(call.Args) == 1 {
-						if fl, ok := call.Args[0].(*ast.FuncLit); ok {
+						if fl, ok := unparen(call.Args[0]).(*ast.FuncLit); ok {
 							p.regs = append(p.regs, c16Reg{after: len(p.appends), closure: fl})
 						}
 					}
@@ -153,13 +252,16 @@ func c16Walk(pkg *packages.Package, body []ast.Stmt, kind string, batch string, 
 				if !known {
 					// a guard that leaves the function (if x == nil { return ... }): the
 					// iteration that goes on is the one where it did not fire
-					leaves := false
-					if s.Else == nil && len(s.Body.List) > 0 {
-						if _, ok := s.Body.List[len(s.Body.List)-1].(*ast.ReturnStmt); ok {
-							leaves = true
-						}
+					leavesBody := s.Body != nil && len(s.Body.List) > 0 && isReturn(s.Body.List[len(s.Body.List)-1])
+					if leavesBody && s.Else == nil {
+						continue
 					}
-					if leaves {
+					if eb, ok := s.Else.(*ast.BlockStmt); ok && len(eb.List) > 0 && isReturn(eb.List[len(eb.List)-1]) && !leavesBody {
+						stmts(s.Body.List) // the else side leaves, the body goes on
+						continue
+					}
+					if eb, ok := s.Else.(*ast.BlockStmt); ok && leavesBody {
+						stmts(eb.List)
 						continue
 					}
 					p.unknown = append(p.unknown, "condition "+types.ExprString(s.Cond))
@@ -196,6 +298,11 @@ func c16Walk(pkg *packages.Package, body []ast.Stmt, kind string, batch string, 
 	stmts(body)
 }
 
+func isReturn(s ast.Stmt) bool {
+	_, ok := s.(*ast.ReturnStmt)
+	return ok
+}
+
 // validateRejectsNone: the Validate method called returns a non-nil error when
 // both subject fields are nil (its condition is read from its body).
 func validateRejectsNone(pkg *packages.Package, info *types.Info, call *ast.CallExpr) bool {
@@ -221,11 +328,28 @@ func validateRejectsNone(pkg *packages.Package, info *types.Info, call *ast.Call
 					if !ok {
 						return true
 					}
-					c := strings.ReplaceAll(types.ExprString(ifs.Cond), " ", "")
-					if strings.Contains(c, "SubjectSet==nil") && strings.Contains(c, "SubjectID==nil") && strings.Contains(c, "&&") {
+					// both subject fields nil (a conjunction of two nil tests, any order/form)
+					bothNil := func(e ast.Expr) bool {
+						be, ok := unparen(e).(*ast.BinaryExpr)
+						if !ok || be.Op != token.LAND {
+							return false
+						}
+						seen := map[string]bool{}
+						for _, side := range []ast.Expr{be.X, be.Y} {
+							op, x, y, ok := cmpParts(imp.TypesInfo, side)
+							if !ok || op != token.EQL || !isNilExpr(imp.TypesInfo, y) {
+								return false
+							}
+							if sel, ok := x.(*ast.SelectorExpr); ok {
+								seen[sel.Sel.Name] = true
+							}
+						}
+						return seen["SubjectSet"] && seen["SubjectID"]
+					}
+					if bothNil(ifs.Cond) {
 						for _, st := range ifs.Body.List {
 							if ret, ok := st.(*ast.ReturnStmt); ok && len(ret.Results) == 1 {
-								if id, ok := ret.Results[0].(*ast.Ident); !ok || id.Name != "nil" {
+								if !isNilExpr(imp.TypesInfo, ret.Results[0]) {
 									rej = true
 								}
 							}
@@ -248,27 +372,62 @@ func importsOf(pkg *packages.Package) []*packages.Package {
 	return out
 }
 
-// closureIndex extracts the constant offset c of the batch index k*i+c used in
-// the closure, the field it assigns, and the multiplier.
-func closureIndex(fl *ast.FuncLit) (offset int, mult int, field string, ok bool) {
+// linearIn: e == a*i + b for an index variable i of idx (constants folded by the type checker).
+func linearIn(info *types.Info, e ast.Expr, idx map[types.Object]bool) (a, b int64, ok bool) {
+	e = unparen(e)
+	if v, isK := intLit(info, e); isK {
+		return 0, v, true
+	}
+	switch x := e.(type) {
+	case *ast.Ident:
+		if idx[objOf(info, x)] {
+			return 1, 0, true
+		}
+	case *ast.BinaryExpr:
+		a1, b1, ok1 := linearIn(info, x.X, idx)
+		a2, b2, ok2 := linearIn(info, x.Y, idx)
+		if !ok1 || !ok2 {
+			return 0, 0, false
+		}
+		switch x.Op {
+		case token.ADD:
+			return a1 + a2, b1 + b2, true
+		case token.SUB:
+			return a1 - a2, b1 - b2, true
+		case token.MUL:
+			if a1 == 0 {
+				return b1 * a2, b1 * b2, true
+			}
+			if a2 == 0 {
+				return a1 * b2, b1 * b2, true
+			}
+		}
+	}
+	return 0, 0, false
+}
+
+// closureIndex extracts, from a deferred reader, the linear index mult*i+offset
+// with which it reads the mapped slice, and the field it assigns.
+func closureIndex(info *types.Info, fl *ast.FuncLit, vars c16Vars) (offset int, mult int, field string, ok bool) {
 	offset, mult = -1, -1
 	ast.Inspect(fl.Body, func(n ast.Node) bool {
 		switch x := n.(type) {
 		case *ast.AssignStmt:
 			if len(x.Lhs) == 1 {
-				field = types.ExprString(x.Lhs[0])
+				if sel, isSel := unparen(x.Lhs[0]).(*ast.SelectorExpr); isSel {
+					field = sel.Sel.Name
+				} else {
+					field = types.ExprString(x.Lhs[0])
+				}
 			}
 		case *ast.IndexExpr:
-			idx := strings.ReplaceAll(types.ExprString(x.Index), " ", "")
-			switch idx {
-			case "i*2", "2*i":
-				offset, mult, ok = 0, 2, true
-			case "i*2+1", "2*i+1":
-				offset, mult, ok = 1, 2, true
-			default:
-				if strings.Contains(idx, "i") {
-					offset, mult, ok = -2, -2, true
-				}
+			if vars.read == nil || objOf(info, x.X) != vars.read {
+				return true
+			}
+			if a, b, lin := linearIn(info, x.Index, vars.idx); lin && a != 0 {
+				offset, mult, ok = int(b), int(a), true
+			} else {
+				offset, mult, ok = -2, -2, true
 			}
 		}
 		return true
@@ -278,7 +437,7 @@ func closureIndex(fl *ast.FuncLit) (offset int, mult int, field string, ok bool)
 
 func roleOfField(f string) string {
 	switch {
-	case strings.HasSuffix(f, ".Object") && !strings.Contains(f, "SubjectSet"):
+	case (f == "Object" || strings.HasSuffix(f, ".Object")) && !strings.Contains(f, "SubjectSet"):
 		return "object"
 	case strings.Contains(f, "Subject"):
 		return "subject"
@@ -294,16 +453,21 @@ func runC16(c *Ctx) {
 		return
 	}
 	for _, spec := range []struct {
-		name, batch string
-		kinds       []string
+		name  string
+		kinds []string
 	}{
-		{"Mapper.FromTuple", "s", []string{"id", "set", "both", "none"}},
-		{"Mapper.ToTuple", "u", []string{"id", "set"}},
+		{"Mapper.FromTuple", []string{"id", "set", "both", "none"}},
+		{"Mapper.ToTuple", []string{"id", "set"}},
 	} {
 		fd := core.FuncDecl(pkg, spec.name)
 		fname := "internal/relationtuple.(*" + strings.Replace(spec.name, ".", ").", 1)
 		if fd == nil {
 			r.Undecide("R16.1", fname, "anchor", "", "not found")
+			continue
+		}
+		vars := c16VarsOf(pkg.TypesInfo, fd)
+		if vars.batch == nil || vars.read == nil || vars.res == nil || len(vars.idx) == 0 {
+			r.Undecide("R16.1", fname, "batch variables", p.Pos(fd.Pos()), "cannot identify the batch handed to the mapping manager, the slice its result is read from, the result slice and the tuple index")
 			continue
 		}
 		var loop *ast.RangeStmt
@@ -319,7 +483,7 @@ func runC16(c *Ctx) {
 		}
 		for _, kind := range spec.kinds {
 			path := &c16Path{desc: kind}
-			c16Walk(pkg, loop.Body.List, kind, spec.batch, path)
+			c16Walk(pkg, loop.Body.List, kind, vars, path)
 			construct := "iteration with subject kind '" + kind + "'"
 			if len(path.unknown) > 0 {
 				r.Undecide("R16.1", fname, construct, p.Pos(loop.Pos()), "cannot evaluate "+strings.Join(path.unknown, ", "))
@@ -340,7 +504,7 @@ func runC16(c *Ctx) {
 				bad = append(bad, "the tuple index i is not len(res) taken before the append to res")
 			}
 			for _, rg := range path.regs {
-				off, mult, field, ok := closureIndex(rg.closure)
+				off, mult, field, ok := closureIndex(pkg.TypesInfo, rg.closure, vars)
 				if !ok {
 					continue
 				}
@@ -383,7 +547,12 @@ func r162single(c *Ctx, pkg *packages.Package) {
 	p, r := c.P, c.R
 	// FromQuery: every registration is func(i int) func(){...}(len(s)-1) right after an append to s
 	if fd := core.FuncDecl(pkg, "Mapper.FromQuery"); fd != nil {
+		info := pkg.TypesInfo
+		vars := c16VarsOf(info, fd)
 		n, bad := 0, []string{}
+		if vars.batch == nil {
+			bad = append(bad, "cannot identify the batch handed to the mapping manager")
+		}
 		ast.Inspect(fd.Body, func(nd ast.Node) bool {
 			blk, ok := nd.(*ast.BlockStmt)
 			if !ok {
@@ -391,9 +560,9 @@ func r162single(c *Ctx, pkg *packages.Package) {
 			}
 			appended := false
 			for _, st := range blk.List {
-				if as, ok := st.(*ast.AssignStmt); ok && len(as.Rhs) == 1 {
-					if call, ok := as.Rhs[0].(*ast.CallExpr); ok {
-						if id, ok := call.Fun.(*ast.Ident); ok && id.Name == "append" && types.ExprString(as.Lhs[0]) == "s" {
+				if as, ok := st.(*ast.AssignStmt); ok && len(as.Rhs) == 1 && len(as.Lhs) == 1 {
+					if call, ok := unparen(as.Rhs[0]).(*ast.CallExpr); ok {
+						if id, ok := unparen(call.Fun).(*ast.Ident); ok && id.Name == "append" && vars.batch != nil && objOf(info, as.Lhs[0]) == vars.batch {
 							appended = true
 						}
 					}
@@ -402,13 +571,19 @@ func r162single(c *Ctx, pkg *packages.Package) {
 					if call, ok := es.X.(*ast.CallExpr); ok {
 						if sel, ok := call.Fun.(*ast.SelectorExpr); ok && sel.Sel.Name == "do" && len(call.Args) == 1 {
 							n++
-							inner, ok := call.Args[0].(*ast.CallExpr)
-							arg := ""
-							if ok && len(inner.Args) == 1 {
-								arg = strings.ReplaceAll(types.ExprString(inner.Args[0]), " ", "")
+							inner, ok := unparen(call.Args[0]).(*ast.CallExpr)
+							okArg := false
+							if ok && len(inner.Args) == 1 && vars.batch != nil {
+								if base, k, isMinus := minusConst(info, inner.Args[0]); isMinus && k == 1 {
+									if c, isCall := base.(*ast.CallExpr); isCall && len(c.Args) == 1 && objOf(info, c.Args[0]) == vars.batch {
+										if id, isID := unparen(c.Fun).(*ast.Ident); isID && id.Name == "len" {
+											okArg = true
+										}
+									}
+								}
 							}
-							if arg != "len(s)-1" || !appended {
-								bad = append(bad, fmt.Sprintf("the reader registered at %s does not capture len(s)-1 right after its append", p.Pos(call.Pos())))
+							if !okArg || !appended {
+								bad = append(bad, fmt.Sprintf("the reader registered at %s does not capture len(batch)-1 right after its append", p.Pos(call.Pos())))
 							}
 						}
 					}
@@ -436,14 +611,16 @@ func r162single(c *Ctx, pkg *packages.Package) {
 			role string
 		}
 		var evs []ev
+		info := pkg.TypesInfo
+		vars := c16VarsOf(info, fd)
 		ast.Inspect(fd.Body, func(nd ast.Node) bool {
 			switch x := nd.(type) {
 			case *ast.AssignStmt:
-				if len(x.Rhs) == 1 {
-					if call, ok := x.Rhs[0].(*ast.CallExpr); ok {
-						if id, ok := call.Fun.(*ast.Ident); ok && id.Name == "append" && types.ExprString(x.Lhs[0]) == "u" && len(call.Args) == 2 {
+				if len(x.Rhs) == 1 && len(x.Lhs) == 1 {
+					if call, ok := unparen(x.Rhs[0]).(*ast.CallExpr); ok {
+						if id, ok := unparen(call.Fun).(*ast.Ident); ok && id.Name == "append" && vars.batch != nil && objOf(info, x.Lhs[0]) == vars.batch && len(call.Args) == 2 {
 							role := "subject"
-							if s := types.ExprString(call.Args[1]); strings.Contains(s, "q.Object") {
+							if roleOfAppended(info, call.Args[1]) == "object" {
 								role = "object"
 							}
 							evs = append(evs, ev{x.Pos(), "append", role})
@@ -455,10 +632,20 @@ func r162single(c *Ctx, pkg *packages.Package) {
 				ast.Inspect(x.Body, func(n2 ast.Node) bool {
 					switch y := n2.(type) {
 					case *ast.AssignStmt:
-						role = roleOfField(types.ExprString(y.Lhs[0]))
+						if sel, ok := unparen(y.Lhs[0]).(*ast.SelectorExpr); ok {
+							role = roleOfField(sel.Sel.Name)
+						} else {
+							role = roleOfField(types.ExprString(y.Lhs[0]))
+						}
 					case *ast.IndexExpr:
-						if types.ExprString(y.X) == "s" {
-							idx = strings.ReplaceAll(types.ExprString(y.Index), " ", "")
+						if vars.read != nil && objOf(info, y.X) == vars.read {
+							if v, isK := intLit(info, y.Index); isK && v == 0 {
+								idx = "0"
+							} else if base, k, isMinus := minusConst(info, y.Index); isMinus && k == 1 && isLenOf(info, base, y.X) {
+								idx = "last"
+							} else {
+								idx = canonExpr(y.Index)
+							}
 						}
 					}
 					return true
@@ -466,7 +653,7 @@ func r162single(c *Ctx, pkg *packages.Package) {
 				switch idx {
 				case "0":
 					evs = append(evs, ev{x.Pos(), "first", role})
-				case "len(s)-1":
+				case "last":
 					evs = append(evs, ev{x.Pos(), "last", role})
 				case "":
 				default:
